@@ -57,8 +57,8 @@ LEVEL_NOTE = ("The exhaustive 2^32 sweep is done by the driver as a SELECTION pr
               "width is FLT_MAX and ranges whose width is not a float any more, streams of 4100 / 65600 draws, a full period of makeRandomColor; (11) distribution OBJECTS are "
               "abstract data types without abstract state (ScalarKernelsDistADT: New / Copy / Draw(generator type, 1 or 20 values) on uniform_real_distribution<float / double>, "
               "pcg32_biased_float_distribution (state = stream position only) and makeRandomColor in four orders): histories from TLC's state graph (all paths up to a budgeted "
-              "length, one history per transition label, seeded walks) hand ONE object (and copies of a used object) pcg32, mt19937_64, minstd_rand, ranlux24 (thorough: also a "
-              "range-end generator) in every order; per Draw TLC decides that the used / copied object returned exactly what a fresh object fed a twin generator returned, that each "
+              "length, one history per transition label, seeded walks) hand ONE object (and copies of a used object) pcg32, mt19937_64, minstd_rand, ranlux24 and a "
+              "range-end generator in every order; per Draw TLC decides that the used / copied object returned exactly what a fresh object fed a twin generator returned, that each "
               "value is l + (raw - min)(u - l) / (max - min) within the accumulated rounding bound (exact arithmetic on the recorded raw output), and the range clause; ranges wider "
               "than FLT_MAX are not part of the histories (they stay judged - and known - on the stream records)")
 TECHNIQUE = ("TLA+ specification of IEEE-754 bit patterns and exact dyadic arithmetic on limbs; laws model-checked by TLC on a complete toy format; "
@@ -729,7 +729,7 @@ def run(chk, replay=None):
             if x["a"] == "Draw":
                 chk.cov["object_draws_compared_with_a_fresh_object"] = chk.cov.get("object_draws_compared_with_a_fresh_object", 0) + len(x["v"])
     chk.cov["action_counts"].update(hcount)
-    gens = ["pcg32", "mt19937_64", "minstd_rand", "ranlux24"] + ([] if quick else ["edge32"])
+    gens = ["pcg32", "mt19937_64", "minstd_rand", "ranlux24"] + ["edge32"]
     need = ["DistHist.Copy(%s)" % k for k in ("urd_f", "urd_d", "biased")] + ["DistHist.New(%s)" % k for k in ("urd_f", "urd_d", "biased")]
     need += ["DistHist.Draw(%s,%s)" % (k, c) for k in ("urd_f", "urd_d") for c in ("fresh", "served-same-type", "served-other-range", "served-other-range,copy", "served-same-type,copy", "fresh,copy")]
     need += ["DistHist.Draw(%s,gen=%s)" % (k, g) for k in ("urd_f", "urd_d") for g in gens]
